@@ -122,6 +122,7 @@ func runC11(ctx *h.Ctx) int {
 			if !res.OK() {
 				k.Count("rejected", 1)
 				k.Count("rejected: "+rejectFamily(res.ErrString()), 1)
+				rejectedValid(k, prog, res, true)
 				return
 			}
 			k.Count("accepted", 1)
